@@ -867,6 +867,19 @@ def getattr_(I, o, name):
             return BoundBuiltin(lambda: o)
         if name == "tolist":
             return BoundBuiltin(lambda: o.values)
+        if name == "shape":
+            v = o.values
+            n = seq_len(v)
+            first = (v.elem(0) if isinstance(v, SymSeq) else (v[0] if (isinstance(n, int) and n) else None))
+            if isinstance(first, (list, tuple, SymSeq)):
+                return (n, seq_len(first))
+            return (n,)
+        if name == "unsqueeze":
+            def unsq(dim=0):
+                if dim not in (0, -2) and not (dim == -1 and False):
+                    raise Unsupported("unsqueeze of an integer tensor on a dimension other than 0")
+                return IntTensorConst([o.values])
+            return BoundBuiltin(unsq)
     if isinstance(o, PartialVal):
         if name == "func":
             return o.func
